@@ -340,62 +340,46 @@ func runCaseExact(p *Program, r *RuleResult) {
 			} else {
 				r.add(name, "duplicate-labels-rejected:"+tag, Violated, p.instrPos(lookup), "a label repeated among the case's branches is not rejected (no set that is both consulted and written in the loop with an error on a hit)")
 			}
-			// (c) after the loop: len(set) < len(val.Branches) ⇒ error
-			covOK := false
-			for _, bb := range view.Blocks() {
-				ins := view.Instrs(bb)
-				iff, ok := ins[len(ins)-1].(*ssa.If)
-				if !ok {
-					continue
-				}
-				bo, ok := iff.Cond.(*ssa.BinOp)
-				if !ok {
-					continue
-				}
-				lenOf := func(v ssa.Value) ssa.Value {
-					c, ok := v.(*ssa.Call)
-					if !ok {
-						return nil
+			// (c) after the loop: len(set) < len(val.Branches) ⇒ error, here or in a helper that is
+			// handed the set and the branches and whose error this rule returns
+			covOK := coverageTest(view, func(v ssa.Value) bool { return setVal != nil && origin(v) == setVal },
+				func(v ssa.Value) bool { return fieldOf(v, val, "Branches") }, loop.Body)
+			if !covOK && setVal != nil {
+				for _, c := range p.callsIn(cm.Fn) {
+					call, ok := c.(*ssa.Call)
+					if !ok || loop.Body[call.Block()] {
+						continue
 					}
-					if bi, ok := c.Common().Value.(*ssa.Builtin); ok && bi.Name() == "len" {
-						return c.Common().Args[0]
+					h := call.Common().StaticCallee()
+					if h == nil || !p.isFirstParty(h) || h.Blocks == nil || h == cm.Fn {
+						continue
 					}
-					return nil
-				}
-				a, bv := lenOf(bo.X), lenOf(bo.Y)
-				if a == nil || bv == nil {
-					continue
-				}
-				setFirst := setVal != nil && origin(a) == setVal && fieldOf(bv, val, "Branches")
-				setSecond := setVal != nil && origin(bv) == setVal && fieldOf(a, val, "Branches")
-				var fewerEdge int = -1
-				switch {
-				case setFirst && (bo.Op.String() == "<" || bo.Op.String() == "!="):
-					fewerEdge = 0
-				case setFirst && bo.Op.String() == ">=" || setFirst && bo.Op.String() == "==":
-					fewerEdge = 1
-				case setSecond && (bo.Op.String() == ">" || bo.Op.String() == "!="):
-					fewerEdge = 0
-				case setSecond && (bo.Op.String() == "<=" || bo.Op.String() == "=="):
-					fewerEdge = 1
-				}
-				if fewerEdge < 0 {
-					continue
-				}
-				// that edge must end in an error, and the test must be after the loop
-				tgt := bb.Succs[fewerEdge]
-				allErr := true
-				for rb := range view.blocksReachableFrom(tgt) {
-					if view.Exit(rb) == ExitReturn {
-						ins2 := view.Instrs(rb)
-						ret := ins2[len(ins2)-1].(*ssa.Return)
-						if !isErrorValue(ret.Results[0], view, rb, map[ssa.Value]bool{}) && view.holdsAt(rb, bo, map[int]factKind{0: factTrue, 1: factFalse}[fewerEdge]) {
-							allErr = false
+					si, bi := -1, -1
+					for i, a := range call.Common().Args {
+						if origin(a) == setVal {
+							si = i
+						}
+						if fieldOf(a, val, "Branches") {
+							bi = i
 						}
 					}
-				}
-				if allErr && !loop.Body[bb] {
-					covOK = true
+					if si < 0 || bi < 0 || si >= len(h.Params) || bi >= len(h.Params) {
+						continue
+					}
+					if !coverageTest(p.View(h), func(v ssa.Value) bool { return v == ssa.Value(h.Params[si]) },
+						func(v ssa.Value) bool { return v == ssa.Value(h.Params[bi]) }, nil) {
+						continue
+					}
+					// the helper's error is this rule's error
+					for _, rb := range view.Blocks() {
+						if !view.holdsAt(rb, call, factNonNil) {
+							continue
+						}
+						ins2 := view.Instrs(rb)
+						if ret, ok := ins2[len(ins2)-1].(*ssa.Return); ok && (ret.Results[0] == ssa.Value(call) || isErrorValue(ret.Results[0], view, rb, map[ssa.Value]bool{})) {
+							covOK = true
+						}
+					}
 				}
 			}
 			if covOK {
@@ -498,4 +482,66 @@ func runFuncKey(p *Program, r *RuleResult) {
 	if !found {
 		r.add(fnName(d.Driver), "function-uniqueness-key", Violated, p.pos(d.Driver.Pos()), "no duplicate-definition check for functions found in the typechecking phases")
 	}
+}
+
+// coverageTest: some branch outside `notIn` compares len(set) with len(branches) and the
+// "fewer labels than branches" edge ends in error returns only.
+func coverageTest(view *View, isSet, isBranches func(ssa.Value) bool, notIn map[*ssa.BasicBlock]bool) bool {
+	for _, bb := range view.Blocks() {
+		ins := view.Instrs(bb)
+		iff, ok := ins[len(ins)-1].(*ssa.If)
+		if !ok {
+			continue
+		}
+		bo, ok := iff.Cond.(*ssa.BinOp)
+		if !ok {
+			continue
+		}
+		lenOf := func(v ssa.Value) ssa.Value {
+			c, ok := v.(*ssa.Call)
+			if !ok {
+				return nil
+			}
+			if bi, ok := c.Common().Value.(*ssa.Builtin); ok && bi.Name() == "len" {
+				return c.Common().Args[0]
+			}
+			return nil
+		}
+		a, bv := lenOf(bo.X), lenOf(bo.Y)
+		if a == nil || bv == nil {
+			continue
+		}
+		setFirst := isSet(a) && isBranches(bv)
+		setSecond := isSet(bv) && isBranches(a)
+		fewerEdge := -1
+		switch {
+		case setFirst && (bo.Op.String() == "<" || bo.Op.String() == "!="):
+			fewerEdge = 0
+		case setFirst && bo.Op.String() == ">=" || setFirst && bo.Op.String() == "==":
+			fewerEdge = 1
+		case setSecond && (bo.Op.String() == ">" || bo.Op.String() == "!="):
+			fewerEdge = 0
+		case setSecond && (bo.Op.String() == "<=" || bo.Op.String() == "=="):
+			fewerEdge = 1
+		}
+		if fewerEdge < 0 {
+			continue
+		}
+		// that edge must end in an error, and the test must be after the loop
+		tgt := bb.Succs[fewerEdge]
+		allErr := true
+		for rb := range view.blocksReachableFrom(tgt) {
+			if view.Exit(rb) == ExitReturn {
+				ins2 := view.Instrs(rb)
+				ret := ins2[len(ins2)-1].(*ssa.Return)
+				if !isErrorValue(ret.Results[0], view, rb, map[ssa.Value]bool{}) && view.holdsAt(rb, bo, map[int]factKind{0: factTrue, 1: factFalse}[fewerEdge]) {
+					allErr = false
+				}
+			}
+		}
+		if allErr && !notIn[bb] {
+			return true
+		}
+	}
+	return false
 }
